@@ -32,6 +32,9 @@ impl VariantDictionary {
     }
 
     pub(crate) fn parse(buffer: &[u8]) -> Result<VariantDictionary, VariantDictionaryError> {
+        if buffer.len() < 2 {
+            return Err(VariantDictionaryError::NotTerminated);
+        }
         let version = LittleEndian::read_u16(&buffer[0..2]);
 
         if version != VARIANT_DICTIONARY_VERSION {
@@ -48,14 +51,31 @@ impl VariantDictionary {
             let key_length = LittleEndian::read_u32(&buffer[pos..(pos + 4)]) as usize;
             pos += 4;
 
+            // key, value length and value must lie inside the buffer
+            if buffer.len() - pos < key_length || buffer.len() - pos - key_length < 4 {
+                return Err(VariantDictionaryError::NotTerminated);
+            }
             let key = String::from_utf8_lossy(&buffer[pos..(pos + key_length)]).to_string();
             pos += key_length;
 
             let value_length = LittleEndian::read_u32(&buffer[pos..(pos + 4)]) as usize;
             pos += 4;
 
+            if buffer.len() - pos < value_length {
+                return Err(VariantDictionaryError::NotTerminated);
+            }
             let value_buffer = &buffer[pos..(pos + value_length)];
             pos += value_length;
+
+            // fixed-width types must have their width
+            let width_ok = match value_type {
+                U32_TYPE_ID | I32_TYPE_ID => value_length >= 4,
+                U64_TYPE_ID | I64_TYPE_ID => value_length >= 8,
+                _ => true,
+            };
+            if !width_ok {
+                return Err(VariantDictionaryError::InvalidValueType { value_type });
+            }
 
             let value = match value_type {
                 U32_TYPE_ID => VariantDictionaryValue::UInt32(LittleEndian::read_u32(value_buffer)),
